@@ -16,9 +16,9 @@ LISTEN = "aiomysensors.gateway.Gateway.listen"
 
 def run(ctx: Ctx, chk) -> None:
     chk.assume("A3", "A5")
-    decl1(ctx, chk)
-    xfield1(ctx, chk)
-    eea_load(ctx, chk)
+    chk.run_rule(decl1, ctx)
+    chk.run_rule(xfield1, ctx)
+    chk.run_rule(eea_load, ctx)
     c01.norm1(ctx, chk, "LITERAL-1")
     # six fields, payload after the 5th delimiter: same rule as C01
     rule = "DELIM-1"
